@@ -247,6 +247,7 @@ theorem C16_no_panic (db : Db) (now : Time) (rpc : Rpc) : (handle db now rpc).2.
       · exact ofErr_ne_panic _
       · simp
   | listSubs project pageSize token => simp only [handle]; unfold hListSubs; split <;> simp
+  | listTopicSubs topic pageSize token => simp only [handle]; unfold hListTopicSubs; split <;> (try split) <;> (try split) <;> simp
   | modifyPush name push =>
     simp only [handle]; unfold hModifyPush
     split
@@ -344,6 +345,7 @@ theorem handle_frame (db : Db) (now : Time) (rpc : Rpc) :
   | updateSub r paths => simp only [handle]; leaf_frame hUpdateSub
   | deleteSub name => simp only [handle]; leaf_frame hDeleteSub
   | listSubs project pageSize token => simp only [handle]; leaf_frame hListSubs
+  | listTopicSubs topic pageSize token => simp only [handle]; leaf_frame hListTopicSubs
   | modifyPush name push => simp only [handle]; leaf_frame hModifyPush
   | pullCheck name maxMessages => simp only [handle]; leaf_frame hPullCheck
   | ackCheck name idsParse isAck => simp only [handle]; leaf_frame hAckCheck
